@@ -522,3 +522,13 @@ def run(ck, prog):
 EXPLANATION += (" Telescoping (E2-telescope): a `scan` in categorical.rs that yields `boundary - state` stores that same boundary "
                 "as its next state, so the segment lengths between categorical columns add up to the column count (found and fixed: "
                 "find_new_idxs stored v after yielding v + 1 - state).")
+
+
+# ------------------------------------------------------------------ generic: signed counters are not cast to unsigned on their negative side
+_run_pre_negcast = run
+
+
+def run(ck, prog):
+    _run_pre_negcast(ck, prog)
+    from sa import negcast
+    negcast.run_rule(ck, prog, set(DIMENSION_FILES))
